@@ -454,6 +454,33 @@ func init() {
 							return
 						}
 					}
+					// names that are keywords in another letter case are names like any other
+					for _, name := range []string{"In", "Nil", "True", "False", "IN", "NIL", "tRUE", "fALSE", "iN", "nIl", "Inn", "trueish", "nilable", "If", "End", "Each", "Loop"} {
+						id := 7000 + len(name)*31 + int(name[0])
+						before := evalString(c, fmt.Sprintf("{{ %s.%s(1) }}", recvSrc, name), nil)
+						if before.Panicked {
+							return
+						}
+						tname := []string{"STRING", "ARRAY", "INTEGER", "FLOAT", "BOOLEAN"}[i]
+						if before.Err == nil || !strings.Contains(before.Err.Error(), name) || !strings.Contains(before.Err.Error(), tname) {
+							c.Violation("conversion:unregistered-call-message", fmt.Sprintf("{{ %s.%s(1) }} before registration gave %s; want an error naming %q and %s", recvSrc, name, before.Describe(), name, tname), map[string]any{"name": name})
+							return
+						}
+						if err := reg(name, id); err != nil {
+							c.Violation("registry:first-registration-refused", fmt.Sprintf("registering the %s function name %q failed: %v", typ, name, err), nil)
+							return
+						}
+						if err := reg(name, id+1); err == nil {
+							c.Violation("registry:second-registration-accepted", fmt.Sprintf("registering the %s function name %q twice succeeded", typ, name), nil)
+							return
+						}
+						for _, src := range []string{fmt.Sprintf("{{ %s.%s() }}", recvSrc, name), fmt.Sprintf("{{ v = %s }}{{ v.%s(1, 2) }}", recvSrc, name), fmt.Sprintf("@if(true){{ d.%s(nil) }}@end", name)} {
+							if g := evalString(c, src, map[string]any{"d": []any{"r", []any{1}, 7, 2.5, true}[i]}); !g.Panicked && (g.Err != nil || g.Out != want(id)) {
+								c.Violation("registry:keyword-cased-name", fmt.Sprintf("%s gave %s, want %q (the function registered as %q)", src, g.Describe(), want(id), name), map[string]any{"source": src})
+								return
+							}
+						}
+					}
 					// 1..64 arguments arrive in order
 					for _, n := range []int{1, 2, 3, 7, 8, 9, 15, 16, 17, 31, 32, 33, 64} {
 						var parts []string
